@@ -1,10 +1,18 @@
 #!/usr/bin/env python3
-"""Check of property C08: see checks/ledger_common.py (pipeline) and DESIGN.md §6 C08."""
+"""Check of property C08 (the log is a complete, ordered journal): DESIGN.md §6 C08.
+
+  1. sequential pipeline (ledger_common): Step_C08_OneLog / Inv_C08_Journal on every request of the seeded histories,
+     and Step_C11_ImportFaithful on the export/import histories ("the log payloads alone determine the state");
+  2. fault sweep (api_common, spec/Faults.tla): "no other operation appends logs" also under faults - a dry run or a
+     failed write must append nothing even when an attempt is retried after a transient deadlock, and a successful
+     write retried that way appends exactly one log. The sweep is shared with C07 / C31 (same cache entry).
+"""
 import os
 import sys
 
 sys.path.insert(0, os.path.dirname(os.path.abspath(__file__)))
 sys.path.insert(0, os.path.join(os.path.dirname(os.path.abspath(__file__)), "..", "lib"))
+import api_common as A
 import ledger_common as L
 import ledger_mutators as M
 import vlib
@@ -13,12 +21,17 @@ PROP = "C08"
 
 
 def run(c):
-    d = L.build_pipeline(c.tier, c.seed)
+    d, fd = A.together(lambda: L.build_pipeline(c.tier, c.seed), lambda: A.faults_pipeline(c.tier, c.seed))
     # "the log payloads alone determine the ledger state": replaying the exported logs into a fresh ledger (the
     # export/import histories of the pipeline) must reproduce the source - the same predicate as C11's
     L.evaluate(c, PROP, d, extra_preds=("Step_C11_ImportFaithful",))
     pred, mut = M.CONTROLS[PROP]
-    c.set("negative_control", L.negative_control(d, c.seed, pred, mut))
+    controls = [L.negative_control(d, c.seed, pred, mut)]
+    # the fault cases are judged exactly as for C07: the database after the request must be one of the states a clean
+    # run goes through (which bounds the number of logs appended: none for a dry run / a failed request, one otherwise)
+    programs, cases, results, accepted = A.eval_faults(c, "C07", fd)
+    controls.append(A.fault_negative_control(c, "C07", programs, cases, results, accepted, c.seed))
+    c.set("negative_control", controls)
 
 
 vlib.main(run, PROP, "model_checking")
